@@ -29,8 +29,8 @@ fn universe() -> Vec<String> {
     v
 }
 
-const LEGACY_ITEMS: &[&str] = &["a", "b", "k", "K", "-", "a-c", "A-C", "\\d", "\\w", "\\W", "\\s", "\\S", "\\D", "é", "\\u212A", "ſ", "^", "&", "\\b", "[", "\\]"];
-const U_ITEMS: &[&str] = &["a", "b", "k", "K", "\\-", "a-c", "A-C", "\\d", "\\w", "\\W", "\\s", "\\S", "é", "\\u212A", "ſ", "\\p{Lu}", "\\P{Lu}", "\\p{Ll}", "\\P{Ll}", "\\u{10400}", "^", "&"];
+const LEGACY_ITEMS: &[&str] = &["a", "b", "k", "K", "-", "a-c", "A-C", "\\d", "\\w", "\\W", "\\s", "\\S", "\\D", "é", "\\u212A", "ſ", "σ", "µ", "^", "&", "\\b", "[", "\\]"];
+const U_ITEMS: &[&str] = &["a", "b", "k", "K", "\\-", "a-c", "A-C", "\\d", "\\w", "\\W", "\\s", "\\S", "é", "\\u212A", "ſ", "\\p{Lu}", "\\P{Lu}", "\\p{Ll}", "\\P{Ll}", "\\u{10400}", "σ", "µ", "^", "&"];
 const V_LEAVES: &[&str] = &["a", "b", "k", "K", "C", "\\-", "\\&", "a-c", "A-C", "\\d", "\\w", "\\W", "\\s", "é", "\\u212A", "ſ", "\\p{Lu}", "\\P{Lu}", "\\q{ab|a|}", "\\q{k}", "\\q{}", "\\q{AB}", "\\q{C}"];
 const V_SMALL: &[&str] = &["a", "k", "K", "a-c", "\\w", "\\W", "\\p{Lu}", "\\q{ab|a}", "ſ", "\\q{}"];
 
